@@ -66,6 +66,7 @@ const (
 	ScopeMDEmphasisAdj     = "md-emphasis-adjacent"
 	ScopeCommentQuote      = "html-comment-quote"
 	ScopeImportMap         = "script-type-importmap"
+	ScopeTypedMacroTag     = "typed-macro-tag"
 )
 
 // Gen generates documents.
@@ -238,6 +239,13 @@ func (g *Gen) macro(t, result string, imported bool) string {
 	if g.R.Intn(2) == 0 {
 		switch result {
 		case "html":
+			if g.format != "html" {
+				// a tag in the body of a macro whose result type is not the format of the file
+				if g.format == "md" || g.avoid(ScopeTypedMacroTag) {
+					break // (Markdown documents carry no raw HTML at all, see C26)
+				}
+				g.feature(ScopeTypedMacroTag)
+			}
 			body = g.pick("<b title=\"{{ p }}\">{{ p }}</b>", "<i class=c>{{ p }}</i>", "<a href=\"/q?x={{ p }}\">l</a>")
 		case "js":
 			body = g.pick("\"pre {{ p }} post\"", "'{{ p }}'", "[{{ p }}, \"it's\"]")
